@@ -411,6 +411,11 @@ func (w *Walk) opSystem() *node.Leg {
 			}
 		}
 		if len(notHeld) == 0 || (len(held) > 0 && r.Bool()) {
+			// the revocation list may also name roles the account does not hold, anywhere in the list
+			if len(notHeld) > 0 && r.Chance(40) {
+				pos := r.Intn(len(held) + 1)
+				held = append(held[:pos:pos], append([]string{notHeld[0]}, held[pos:]...)...)
+			}
 			return u.UnsetRoles(acc, t.ID, held...)
 		}
 		return u.SetRoles(acc, t.ID, notHeld...)
